@@ -14,6 +14,7 @@ import suite_h
 import suite_env
 import suite_uvl
 import suite_export
+import suite_known
 
 TRUSTED_BASE = [
     "Coq 8.16.1 kernel; vm_compute for Examples / refuted witnesses; no native_compute",
@@ -211,7 +212,7 @@ PROPS = {
     ),
     "C01": dict(
         props="Props/C01.v", tables=["core", "uvl"],
-        suites=[suite_uvl.run],
+        suites=[suite_uvl.run, suite_known.run_c01_known],
         rule=("suites W-uvl (bytes of UVLWriter vs [uvl_write]), P-uvl (the real uvlparser parse tree of the written file, "
               "converted to the model's syntax-tree type, vs [cst_of_fm]: validates the parser premise of the theorems) and "
               "R-uvl (UVLReader on the file vs [uvl_read_cst] of the parse tree, pointer-annotated); inputs: random models of "
@@ -239,8 +240,8 @@ PROPS = {
     "C02": dict(
         props="Props/C02.v", tables=["core", "json", "glencoe", "fide", "uvl", "afm"],
         suites=[suite_json.run, suite_glencoe.run, suite_xml.run_fide, suite_xml.run_fama, suite_uvl.run, suite_afm.run,
-                suite_glencoe.run_third_party, suite_xml.run_fide_third_party, suite_afm.run_third_party, suite_uvl.run_c04],
-        suite_prefixes=["R-"], clause_prefixes=["graph:"],
+                suite_glencoe.run_third_party, suite_xml.run_fide_third_party, suite_afm.run_third_party, suite_uvl.run_c04, suite_known.run_c02_known],
+        suite_prefixes=["R-"], clause_prefixes=["graph:", "known:"],
         rule=("the reader suites of C01/C04/C05/C06/C07/C08/C09 (R-json, R-glencoe, R-fide, R-fama, R-uvl, R-uvl-emitter, R-afm, "
               "R-*-3p): every "
               "model a reader returns is dumped WITH its back pointers (parent of every feature, parent of every relation, "
@@ -304,7 +305,7 @@ def _known_key(f):
     return None
 
 
-FINDING_KEYS = {"C18": _c18_key, "C10": _c10_key, "C04": _known_key}
+FINDING_KEYS = {"C18": _c18_key, "C10": _c10_key, "C04": _known_key, "C01": _known_key, "C02": _known_key}
 
 
 def replay(ctx, info, path):
